@@ -135,6 +135,12 @@ package standard
 //@
 //@ // ---- C20: the goroutines started for unblinding all end ----
 //@
+//@ // the relays asked to unblind are builder clients that were obtained and can unblind
+//@ func (*Service).unblindersForProposal
+//@   loop 1
+//@     invariant forall k int :: 0 <= k && k < len(providers) ==> providers[k] != nil
+//@   ensures result1 == nil ==> forall k int :: 0 <= k && k < len(result0) ==> result0[k] != nil
+//@
 //@ func (*Service).unblindProposal
 //@   requires proposal != nil && nolocks()
 //@   requires forall k int :: 0 <= k && k < len(providers) ==> providers[k] != nil
